@@ -68,6 +68,38 @@ Theorem C09_parts_are_fit : forall c f, match encode_parts c f, encode_fit c f w
 Proof. exact parts_are_fit. Qed.
 Print Assumptions C09_parts_are_fit.
 
+(* the stream encoder at message level (Model/Stream.v): WriteMessage validates and encodes one message at a time with the state
+   the encoder keeps between calls; SequenceCompleted resets it as the source says (gen/DecoderReset.v, read from
+   Encoder.reset and SequenceCompleted on every run: reset_complete_now fails to check when one of the fields is no longer
+   cleared).  For EVERY chain of message lists the stream encoder accepts the chain iff the batch encoder accepts every file
+   (under the stream encoder's zero header), and then the parts handed to the destination -- hence, with the theorems above,
+   the bytes -- are the same: validation state, LRU, timestamp reference, data size and CRC do not leak from one sequence
+   into the next, and interleaving validation with encoding changes nothing. *)
+From Fit Require Import Model.Stream Proofs.StreamProofs.
+Theorem C09_stream_message_level : forall c fs,
+  match stream_bytes c fs, encode_fits c (map (mkefile 0 0 0) fs) [] with
+  | Ok a, Ok b => a = b
+  | Ok _, _ => False
+  | _, Ok _ => False
+  | _, _ => True
+  end.
+Proof. exact (fun c fs => stream_bytes_spec c fs reset_complete_now). Qed.
+Print Assumptions C09_stream_message_level.
+Theorem C09_stream_sequences_are_batch_parts : forall c fs,
+  match stream_sequences c (ss_init c) fs [], batch_parts c fs [] with
+  | Ok ps, Ok qs => ps = qs
+  | Ok _, _ => False
+  | _, Ok _ => False
+  | _, _ => True
+  end.
+Proof. exact (fun c fs => stream_sequences_spec c reset_complete_now fs []). Qed.
+Print Assumptions C09_stream_sequences_are_batch_parts.
+(* non-vacuity: two sequences through the stream model, the second relying on nothing of the first *)
+Example C09_stream_instance :
+  let ms := [mkmsg 0 0 [set_value (create_field 0 0) (VNum TU8 4)] []; mkmsg 0 20 [set_value (create_field 20 253) (VNum TU32 1000000000)] []] in
+  match stream_bytes (mkecfg false true 2 proto_V2 false) [ms; ms] with Ok b => (60 <? len b) = true | _ => False end.
+Proof. vm_compute. reflexivity. Qed.
+
 (* non-vacuity: a concrete file through a 7-byte buffer into a seekable destination, and through no buffer into a plain one *)
 Definition c09_file := mkefile 14 0 0 [mkmsg 0 0 [set_value (create_field 0 0) (VNum TU8 4)] []; mkmsg 0 20 [set_value (create_field 20 253) (VNum TU32 1000000000)] []].
 Example C09_instance : match encode_parts (mkecfg false false 0 proto_V2 false) c09_file with
